@@ -609,11 +609,13 @@ End Top.
 (* ====================================================================== the full statement (NOT proved) *)
 (* C09 for the heap model Tree/Load.v and for every master that is split only at splittable places: files of different
    versions, split points that are named or have sequence content, sub-elements keyed by DEFINITION-REF.  The theorems
-   above prove it for the pure merge [pmerge] and the class [Good]; what is missing for C09_full is
-     (1) the refinement  heap merge_element = pmerge  on the trees read back with [abs] (it is validated on every load of
-         the correspondence streams by MergePure.check_load, not proved),
-     (2) the classes outside Good: split points whose content is a sequence (the insertion range then depends on the
-         schema order), named split points, DEFINITION-REF keys in bags, different versions per file.
+   above prove it for the pure merge [pmerge] and the class [Good]; Tree/LoadRefine*.v prove that the heap merge computes
+   the pure merge (merge_refine, load_parsed_merge) and lift the union to the heap model for the class Good (heap_union,
+   heap_union_buffers: the conclusion of C09_full for masters of the class whose files all have one version, conditional
+   on the overlap check of the path index not rejecting a load).  What is still missing for C09_full:
+     (1) the classes outside Good: elements that mix a SHORT-NAME / text with split sub-elements in arbitrary ways (named
+         split points are covered when they are sequences), choice groups inside sequences, different versions per file;
+     (2) that the overlap check (C04/C05: the path index) never rejects a view of such a master.
    [C09-unnamed-below-splittable] (known finding) shows that the statement is FALSE for elements without any key below a
    splittable parent; [UniqueKeys] excludes them. *)
 Fixpoint load_views (T : tables) (LATEST defref : N) (m : N) (M : mtree) (version : N -> N) (gs : list N) (w : world)
